@@ -2,14 +2,17 @@ import Model.Temp
 import Drivers.Common
 /-! `vm_c12`: line protocol over `Model.Temp`.
 
-  run \t <files> \t <find> \t <fold> \t <pool> \t <ntemps> \t <ops>
+  run \t <files> \t <find> \t <fold> \t <pool> \t <ntemps> \t <ops> [\t <cbs> \t <cpool>]
     files : f=d,d,…;f=…        d = c<name> | i<name> | n<name>   (class / interface / function)
     find  : name>file,…         class-path lookup (absent = not found)
     fold  : name>rep,…          case-fold representative (absent = itself)
     pool  : name,name,…         names looked up in the resolve tables
     ops   : op|op|…             add v k n id · lar v f · pf v f · golc v n · goli v n · pkg v n · dis i
-                                v = b | t<i> ;  k = c | i | n
-  → one record per op, joined by `|`:  <res>;<thrown>;<tables>;<leaky>
+                                ev v u id · inc v f r · rfn v n id · areg v cb · use v n p · def v c · als v a b · nop v
+                                v = b | t<i> ;  k = c | i | n ;  r, p = 0 | 1
+    cbs   : name>file,…;…       the autoload callbacks (callback k = k-th group; may be empty)
+    cpool : c,c,…               constants looked up
+  → one record per op, joined by `|`:  <res>;<thrown>;<tables>;<consts>;<leaky>
       res = ok:- | ok:s<k> | ok:f<k> | err | crash
       tables = base/t0/…  each: cells for (class,interface,function) × pool, `,`-separated
 -/
@@ -49,10 +52,17 @@ def parseNatPairs (s : String) : Option (List (Nat × Nat)) := do
   let ps ← parsePairs s ">"
   ps.mapM (fun (a, b) => b.toNat?.map (fun b => (a, b)))
 
-def mkDisk (files : List (Nat × List Decl)) (find fold : List (Nat × Nat)) : Disk :=
+def mkDisk (files : List (Nat × List Decl)) (find fold : List (Nat × Nat)) (cbs : List (List (Nat × Nat))) : Disk :=
   { content := fun f => files.lookup f
     find := fun n => find.lookup n
-    fold := fun n => (fold.lookup n).getD n }
+    fold := fun n => (fold.lookup n).getD n
+    cbs := cbs.map (fun t => fun n => t.lookup n) }
+
+def parseCbs (s : String) : Option (List (List (Nat × Nat))) :=
+  if s.isEmpty then some [] else (s.splitOn ";").mapM parseNatPairs
+
+def parseBool : String → Option Bool
+  | "0" => some false | "1" => some true | _ => none
 
 def parseOp (s : String) : Option Op :=
   match s.splitOn " " with
@@ -63,6 +73,14 @@ def parseOp (s : String) : Option Op :=
   | ["goli", v, n] => do some (.getOrLoadInterface (← parseVM v) (← n.toNat?))
   | ["pkg", v, n] => do some (.loadPkg (← parseVM v) (← n.toNat?))
   | ["dis", i] => i.toNat?.map Op.discard
+  | ["ev", v, u, id] => do some (.evalCode (← parseVM v) (← u.toNat?) (← id.toNat?))
+  | ["inc", v, f, r] => do some (.incl (← parseVM v) (← f.toNat?) (← parseBool r))
+  | ["rfn", v, n, id] => do some (.runFn (← parseVM v) (← n.toNat?) (← id.toNat?))
+  | ["areg", v, cb] => do some (.autoReg (← parseVM v) (← cb.toNat?))
+  | ["use", v, n, p] => do some (.useClass (← parseVM v) (← n.toNat?) (← parseBool p))
+  | ["def", v, c] => do some (.define (← parseVM v) (← c.toNat?))
+  | ["als", v, a, b] => do some (.alias (← parseVM v) (← a.toNat?) (← b.toNat?))
+  | ["nop", v] => do some (.inert (← parseVM v))
   | _ => none
 
 def showSrc : Option Src → String
@@ -81,26 +99,37 @@ def showTable (d : Disk) (w : World) (pool : List Nat) (v : VMId) : String :=
 def showTables (d : Disk) (w : World) (pool : List Nat) (nt : Nat) : String :=
   "/".intercalate ((VMId.base :: (List.range nt).map VMId.temp).map (showTable d w pool))
 
-def runOps (d : Disk) (pool : List Nat) (nt : Nat) : World → List Op → List String → List String
+def showConsts (w : World) (cpool : List Nat) : String :=
+  String.join (cpool.map (fun c => if w.base.consts.contains c then "1" else "0"))
+
+def runOps (d : Disk) (pool cpool : List Nat) (nt : Nat) : World → List Op → List String → List String
   | _, [], acc => acc.reverse
   | w, op :: ops, acc =>
     let lk := leaky d w op
     let r := step d w op
-    let rec_ := s!"{showRes r.2};{r.1.base.thrown};{showTables d r.1 pool nt};{if lk then 1 else 0}"
-    runOps d pool nt r.1 ops (rec_ :: acc)
+    let rec_ := s!"{showRes r.2};{r.1.base.thrown};{showTables d r.1 pool nt};{showConsts r.1 cpool};{if lk then 1 else 0}"
+    runOps d pool cpool nt r.1 ops (rec_ :: acc)
+
+def parseNats (s : String) : Option (List Nat) :=
+  if s.isEmpty then some [] else (s.splitOn ",").mapM (·.toNat?)
+
+def handleRun (files find fold pool nt ops cbs cpool : String) : String :=
+  let r : Option String := do
+    let files ← parseFiles files
+    let find ← parseNatPairs find
+    let fold ← parseNatPairs fold
+    let pool ← parseNats pool
+    let nt ← nt.toNat?
+    let ops ← if ops.isEmpty then some [] else (ops.splitOn "|").mapM parseOp
+    let cbs ← parseCbs cbs
+    let cpool ← parseNats cpool
+    some ("|".intercalate (runOps (mkDisk files find fold cbs) pool cpool nt {} ops []))
+  r.getD "bad-request"
 
 def handle (line : String) : String :=
   match line.splitOn "\t" with
-  | ["run", files, find, fold, pool, nt, ops] =>
-    let r : Option String := do
-      let files ← parseFiles files
-      let find ← parseNatPairs find
-      let fold ← parseNatPairs fold
-      let pool ← if pool.isEmpty then some [] else (pool.splitOn ",").mapM (·.toNat?)
-      let nt ← nt.toNat?
-      let ops ← if ops.isEmpty then some [] else (ops.splitOn "|").mapM parseOp
-      some ("|".intercalate (runOps (mkDisk files find fold) pool nt {} ops []))
-    r.getD "bad-request"
+  | ["run", files, find, fold, pool, nt, ops] => handleRun files find fold pool nt ops "" ""
+  | ["run", files, find, fold, pool, nt, ops, cbs, cpool] => handleRun files find fold pool nt ops cbs cpool
   | _ => "bad-request"
 
 def main : IO Unit := Drivers.runDriver handle
